@@ -6,7 +6,7 @@ exit status is the same and - where output exists - the bytes are the same; trac
 Expand.  (G) the in-process legs (every output-buffer size sequence through emit(), every word split
 through retrieve()/parse()) are part of tools/checks/c09.py's thorough tier via harness/replay_emit.c."""
 import bz2, glob, os, random
-import vlib, campaign, sched, shapes, inputs, bzcraft
+import vlib, campaign, sched, shapes, inputs, bzcraft, inproc
 
 LEVEL = "model_checking"
 
@@ -42,6 +42,11 @@ def run(rep, tier, replay):
     if tier == "thorough":
         xtab = shapes.EXPAND_QUICK + [shapes.random_expand_shape(rng, i) for i in range(10)]
     mbad = sched.mc_legs(rep, [("expand", xtab)], pol)
+    # (G) every suspension point of the run-length emitter: Emit.tla behaviours through the real emit()
+    srcdir = os.path.join(os.path.dirname(exe), "src")
+    for line, beh in inproc.emit_leg(rep, srcdir, tier):
+        rep.violation("emit() deviates from Emit.tla when the output buffer runs full: %s" % line,
+                      dict(kind="inproc", cls="emit-replay", harness="replay_emit", behaviour=beh, failure=line))
     files = corpus(rng, tier)
     cases = []
     nvar = 10 if tier == "quick" else 40
